@@ -45,9 +45,25 @@ pub fn gen_byods<R: Src>(r: &mut R, _cfg: &GenCfg, ds: Ds, ternary: bool) -> Pro
       if ternary { cl("edge", vec![av(k), av(a), av(b)]) } else { cl("edge", vec![av(a), av(b)]) }
    };
    // ---- feeders
-   p.rules.push(rule(vec![rh("k", v("x"), v("y"))], vec![ec("k", "x", "y")]));
+   // sparse form (ternary only): many keys, one or two edges. The feeders are constant edges placed under every key,
+   // so the per-key maps are many and the node sets tiny (size estimates of the key-free indices round down to 0)
+   let sparse = ternary && r.chance(20);
+   if sparse {
+      let (c1, c2) = (r.range(0, 3), r.range(0, 3));
+      p.rels.push(rel("want", vec![T, T], false));
+      p.rules.push(rule(vec![hd("want", vec![Expr::Int(c1, T), Expr::Int(c2, T)])], vec![]));
+      if r.chance(40) {
+         p.rules.push(rule(vec![hd("want", vec![Expr::Int(c2, T), Expr::Int(c1, T)])], vec![]));
+      }
+      p.rules.push(rule(vec![rh("k", v("x"), v("y"))], vec![cl("keys", vec![av("k")]), cl("want", vec![av("x"), av("y")])]));
+   } else {
+      p.rules.push(rule(vec![rh("k", v("x"), v("y"))], vec![ec("k", "x", "y")]));
+   }
    let mut n_feed = 0;
-   if recursive && r.chance(60) {
+   if sparse {
+      n_feed = 1;
+   }
+   if !sparse && recursive && r.chance(60) {
       // recursive through nxt: R(y, z) <-- R(x, y), nxt(y, z)
       if r.chance(40) {
          p.rules.push(rule(vec![rh("k", v("y"), v("z"))], vec![rc("k", av("y"), av("x")), cl("nxt", vec![av("y"), av("z")])]));
@@ -56,7 +72,7 @@ pub fn gen_byods<R: Src>(r: &mut R, _cfg: &GenCfg, ds: Ds, ternary: bool) -> Pro
       }
       n_feed += 1;
    }
-   if recursive && r.chance(40) {
+   if !sparse && recursive && r.chance(40) {
       // through another relation
       p.rels.push(rel("mid", if ternary { vec![k_ty, T] } else { vec![T] }, false));
       if ternary {
@@ -68,7 +84,7 @@ pub fn gen_byods<R: Src>(r: &mut R, _cfg: &GenCfg, ds: Ds, ternary: bool) -> Pro
       }
       n_feed += 1;
    }
-   if recursive && (r.chance(55) || n_feed == 0) {
+   if !sparse && recursive && (r.chance(55) || n_feed == 0) {
       // staged arrival: tick advances inside R's stratum (it reads R), stage i facts arrive when tick(i) exists
       let mut scols = vec![Ty::I32];
       scols.extend(rcols.iter().cloned());
@@ -93,9 +109,12 @@ pub fn gen_byods<R: Src>(r: &mut R, _cfg: &GenCfg, ds: Ds, ternary: bool) -> Pro
    let mut oi = 0;
    for _ in 0..n_readers {
       oi += 1;
-      let inside = recursive && r.chance(25); // reader that feeds R again (inside the recursive stratum)
+      let inside = !sparse && recursive && r.chance(25); // reader that feeds R again (inside the recursive stratum)
       let on = format!("out{oi}");
-      let mut pat = r.below(if ternary { 10 } else { 8 });
+      let mut pat = r.below(if ternary { 12 } else { 8 });
+      if sparse && oi == 1 {
+         pat = 12;
+      }
       // KF-14 (known finding): the ternary trrel_uf adaptor fills its reverse maps from the inserted tuples only, so
       // reads that do not bind the key miss implied (reflexive / closure) tuples; such reads are not generated for it
       let key_bound_only = ds == Ds::TrRelUf && ternary && _cfg.excluded("KF-14");
@@ -104,6 +123,9 @@ pub fn gen_byods<R: Src>(r: &mut R, _cfg: &GenCfg, ds: Ds, ternary: bool) -> Pro
             2 => 4,
             3 => 5,
             6 => 7,
+            10 => 4,
+            11 => 5,
+            12 => 7,
             p => p,
          };
       }
@@ -126,11 +148,15 @@ pub fn gen_byods<R: Src>(r: &mut R, _cfg: &GenCfg, ds: Ds, ternary: bool) -> Pro
          (true, 6) => (vec![cl("pairs", vec![av("x"), av("y")])], vec![av("k"), av("x"), av("y")], vec!["x", "y"]),
          (true, 7) => (vec![cl("keys", vec![av("k")]), cl("pairs", vec![av("x"), av("y")])], vec![av("k"), av("x"), av("y")], vec!["x", "y"]),
          (true, 8) => (vec![], vec![av("k"), av("x"), av("x")], vec!["x", "x"]),
+         // three clauses, both value columns bound, key free (the rule gets the emptiness guard over index [1, 2])
+         (true, 10) => (vec![cl("probe", vec![av("x")]), cl("nxt", vec![av("x"), av("y")])], vec![av("k"), av("x"), av("y")], vec!["x", "y"]),
+         (true, 11) => (vec![cl("probe", vec![av("y")]), cl("pairs", vec![av("x"), av("y")])], vec![av("k"), av("x"), av("y")], vec!["x", "y"]),
+         (true, 12) => (vec![cl("want", vec![av("x"), av("y")]), cl("want", vec![av("x"), av("w")])], vec![av("k"), av("x"), av("y")], vec!["x", "y"]),
          (true, _) => (vec![cl("keys", vec![av("k")])], vec![av("k"), Arg::Wild, av("y")], vec!["y", "y"]),
       };
       // R first or after the binding clauses
       let rclause = cl("rr", rargs);
-      if r.chance(25) && !body.is_empty() && pat != 7 {
+      if r.chance(25) && !body.is_empty() && pat != 7 && pat != 12 {
          body.insert(0, rclause);
       } else {
          body.push(rclause);
